@@ -185,3 +185,64 @@ instance (N : Nat) (s : Option Rec) : Decidable (WfO N s) := by
   cases s <;> unfold WfO <;> infer_instance
 
 end Comdex.Twa
+
+/-! ## Reconfiguration of the window parameters (governance: `FetchPriceProposal` → `AddFetchPriceRecords`)
+
+`x/bandoracle/keeper/oracle.go:167-177` installs a new `TwaBatchSize` (N) and `AcceptedHeightDiff` (acc) and DELETES
+every stored window (`k.market.DeleteTwaData(ctx, data.AssetID)` for every record). The property is stated "for a fixed
+window size N"; the delete loop is what keeps that premise true across governance: every maximal stretch of samples
+between two reconfigurations starts from the empty store. -/
+namespace Comdex.Twa
+
+/-- the window parameters a fetch-price proposal installs -/
+structure Cfg where
+  N   : Nat      -- TwaBatchSize
+  acc : Int      -- AcceptedHeightDiff
+  deriving Repr, DecidableEq
+
+/-- one asset's window together with the parameters in force -/
+structure CSt where
+  cfg : Cfg
+  s   : Option Rec
+  deriving Repr, DecidableEq
+
+/-- a history with reconfigurations -/
+inductive COp where
+  | op (o : Op)
+  | reconfigure (c : Cfg)
+  deriving Repr
+
+/-- the code: new parameters, the stored window is deleted -/
+def cstep (c : CSt) : COp → Except Panic CSt
+  | .op o => (step c.cfg.N c.cfg.acc c.s o).map fun s' => { c with s := s' }
+  | .reconfigure cfg' => .ok { cfg := cfg', s := none }
+
+def crun : CSt → List COp → Except Panic CSt
+  | c, [] => .ok c
+  | c, o :: os => do let c' ← cstep c o; crun c' os
+
+/-- the COUNTERFACTUAL: new parameters, the stored window is KEPT (what the chain does when the delete loop misses the
+record, e.g. keyed by the wrong id) -/
+def cstepStale (c : CSt) : COp → Except Panic CSt
+  | .op o => (step c.cfg.N c.cfg.acc c.s o).map fun s' => { c with s := s' }
+  | .reconfigure cfg' => .ok { c with cfg := cfg' }
+
+def crunStale : CSt → List COp → Except Panic CSt
+  | c, [] => .ok c
+  | c, o :: os => do let c' ← cstepStale c o; crunStale c' os
+
+/-- the last maximal segment of a history: the parameters in force at the end, the window the segment started from
+(`none` = deleted by the reconfiguration that opened it) and the ops since -/
+structure Seg where
+  cfg   : Cfg
+  start : Option Rec
+  ops   : List Op
+  deriving Repr
+
+def segStep (a : Seg) : COp → Seg
+  | .op o => { a with ops := a.ops ++ [o] }
+  | .reconfigure c => { cfg := c, start := none, ops := [] }
+
+def lastSegment (c0 : CSt) (ops : List COp) : Seg := ops.foldl segStep { cfg := c0.cfg, start := c0.s, ops := [] }
+
+end Comdex.Twa
